@@ -6,7 +6,7 @@
    AUTO = 1: conn.Write succeeds at once (EWriteOk is treated as internal).
    ACTION ::= (send RID TAG (req #BYTES)) | (send RID TAG (flush OLD)) | (connerr)
             | (fin RID (msg #B)) | (fin RID (emsg #E)) | (fin RID (err #E))
-            | (wok) | (wfail) | (cancel) | (nop)
+            | (wok) | (wfail) | (cancel) | (nop) | (multi ACTION...)
    OBS    ::= (obs (TAKE...) (DISP...) (RID...) STOPS)
               TAKE = (TAG #BYTES) in write order; DISP = (RID #BYTES) sorted by RID;
               cancelled RIDs sorted; STOPS = number of Stop calls in this step.
@@ -101,14 +101,27 @@ Definition parse_res (s : sexp) : hres :=
   if head_is s "msg" then RMsg (get_bytes (arg s 0))
   else if head_is s "emsg" then RErrMsg (get_bytes (arg s 0))
   else RErr (get_bytes (arg s 0)).
-Definition parse_action (a : sexp) : option event :=
-  if head_is a "send" then Some (ESend (get_N (arg a 0)) (get_N (arg a 1)) (parse_kind (arg a 2)))
-  else if head_is a "connerr" then Some EConnErr
-  else if head_is a "fin" then Some (EFinish (get_N (arg a 0)) (parse_res (arg a 1)))
-  else if head_is a "wok" then Some EWriteOk
-  else if head_is a "wfail" then Some EWriteFail
-  else if head_is a "cancel" then Some ECtxCancel
-  else None.   (* nop *)
+Definition parse_action1 (a : sexp) : list event :=
+  if head_is a "send" then [ESend (get_N (arg a 0)) (get_N (arg a 1)) (parse_kind (arg a 2))]
+  else if head_is a "connerr" then [EConnErr]
+  else if head_is a "fin" then [EFinish (get_N (arg a 0)) (parse_res (arg a 1))]
+  else if head_is a "wok" then [EWriteOk]
+  else if head_is a "wfail" then [EWriteFail]
+  else if head_is a "cancel" then [ECtxCancel]
+  else [].   (* nop *)
+(* (multi A1 A2 ...): several handler returns observed in one step (they commute with every
+   internal event of the other handlers, so applying them first loses no interleaving) *)
+Definition parse_action (a : sexp) : list event :=
+  if head_is a "multi" then flat_map parse_action1 (tl (get_list a)) else parse_action1 a.
+
+Fixpoint apply_events (v : variant) (s : st) (acc : list output) (evs : list event) : option (st * list output) :=
+  match evs with
+  | [] => Some (s, acc)
+  | e :: r => match step v s e with
+              | Some (s', o) => apply_events v s' (rev o ++ acc) r
+              | None => None
+              end
+  end.
 
 Definition sexp_eqb (a b : sexp) : bool := list_N_eqb (print_sexp a) (print_sexp b).
 
@@ -121,9 +134,9 @@ Definition EXPLORE_FUEL : nat := 4000.
 Definition step_set (v : variant) (auto : bool) (states : list st) (act obs : sexp)
   : list st * list sexp * bool :=
   let starts := flat_map (fun s =>
-                  match parse_action act with
-                  | Some e => match step v s e with Some (s', o) => [(s', rev o)] | None => [] end
-                  | None => [(s, [])]
+                  match apply_events v s [] (parse_action act) with
+                  | Some n => [n]
+                  | None => []
                   end) states in
   let '(quiet, oof) := explore v auto EXPLORE_FUEL starts starts [] in
   let projs := map (fun n => (fst n, project (rev (snd n)))) quiet in
